@@ -9,6 +9,7 @@ HARNESSES = {
     "writers": dict(src=["harness/h_writers.cpp"], flavour="asan"),
     "tools": dict(src=["harness/h_tools.cpp"], flavour="asan"),
     "mutread": dict(src=["harness/h_mutread.cpp"], flavour="asan"),
+    "mutread_plain": dict(src=["harness/h_mutread.cpp"], flavour="plain"),
     "fuzz_reader": dict(src=["harness/fuzz_reader.cpp"], flavour="asan", ldflags=["-fsanitize=fuzzer"], libs=[]),
     "fuzz_decoder": dict(src=["harness/fuzz_decoder.cpp"], flavour="asan", ldflags=["-fsanitize=fuzzer"], libs=[]),
     "cdns-merge": dict(src=["REPO/src/bin/cdns_merge.cpp"], flavour="asan", libs=[]),
@@ -24,6 +25,7 @@ ENGINE_TEXT = {
     "codec": "rapidcheck + exhaustive choice-tree enumeration on CdnsEncoder/CdnsDecoder, ASan+UBSan",
     "tools": "rapidcheck inputs for the real CLI tools (sanitizer builds of src/bin/*.cpp) run as subprocesses",
     "mutread": "rapidcheck structure-aware mutation of valid files into CdnsReader / CdnsDecoder, ASan+UBSan, allocation cap",
+    "mutread_plain": "uninstrumented build of the mutread harness, replayed under valgrind memcheck (thorough tier)",
     "fuzz_reader": "libFuzzer target: bytes -> CdnsReader, accessors, renderers",
     "fuzz_decoder": "libFuzzer target: bytes -> CdnsDecoder operation program",
     "cdns-merge": "tool under test (sanitizer build)", "cdns-itemcount": "tool under test (sanitizer build)", "cdns-items": "tool under test (sanitizer build)",
@@ -302,12 +304,13 @@ PROPS = {
         level_note="time/memory proportionality is checked through the allocation cap, the stack limit and a conservative hang rule (timeouts are inconclusive); uninitialised reads only via semantic oracles",
         technique="property-based testing (structure-aware mutation, rapidcheck) + libFuzzer coverage-guided fuzzing, sanitizers as oracle",
         assumptions=["std::bad_alloc / std::length_error are accepted failures unless the allocation cap fired"],
-        extra_harnesses=["cdns-merge", "cdns-itemcount", "cdns-items", "cdns-blocks", "cdns-preamble", "mutread", "fuzz_reader", "fuzz_decoder"],
+        extra_harnesses=["cdns-merge", "cdns-itemcount", "cdns-items", "cdns-blocks", "cdns-preamble", "mutread", "mutread_plain", "fuzz_reader", "fuzz_decoder"],
         jobs=[
             dict(harness="mutread", prop="c03_reader", cases=(64000, 2400000), size=(40, 100), env=dict(ASAN_OPTIONS="max_allocation_size_mb=64")),
             dict(harness="mutread", prop="c03_decoder", cases=(64000, 2400000), size=(40, 100), env=dict(ASAN_OPTIONS="max_allocation_size_mb=64")),
             dict(harness="tools", prop="c03_tools", cases=(1600, 48000), size=(30, 60)),
             dict(kind="py", func="fuzz", targets=["fuzz_reader", "fuzz_decoder"], runs=(150000, 0), max_total_time=(0, 600), procs=(2, 4), max_len=16384),
+            dict(kind="py", func="valgrind_slice", tiers=("thorough",), props=[("c03_reader", 300), ("c03_decoder", 150)]),
         ],
     ),
     "C18": dict(
